@@ -11,6 +11,8 @@
         a<ki>,<v|n>,<flags>[!]   add / add_ex (1 = KEY_IS_NEW, 2 = CONSTANT_KEY); ! = first allocation refused
         d<ki>                     json_object_object_del
         x<ki,ki,..|->             json_object_object_foreach deleting the current key when listed
+        y<ki,ki,..|->             the same in a translation unit compiled as strict ISO C (the portable
+                                  definition of the macro in json_object.h)
         h<sel>                    json_global_set_string_hash(sel) while the objects are alive (ret = its result)
         o                         switch to the other of two objects; it is created (json_object_new_object,
                                   same initial size) at the first switch, under the selection current THEN
@@ -86,7 +88,9 @@ let run_ops modeb hash_of gsel0 mk nkeys al t0 ops =
           (match obj_del keq hash (t ()) (int_of_string body) with
            | Some t' -> set t'; emit "0"
            | None -> raise (Out "nullderef"))
-      | 'x' ->
+      | 'x' | 'y' ->
+          (* y: the same loop compiled from the portable definition of the macro; both definitions
+             are the walk "fetch next, run body" of the model *)
           let set_ = ints body in
           (match obj_foreach_del keq hash modeb (fun k -> List.mem k set_) (t ()) with
            | Some (vis, t') -> set t'; emit (visited modeb vis)
